@@ -49,7 +49,7 @@ let parse_ent tok = match String.split_on_char ':' tok with
   | ["e"; t] -> E (int_of_string t)
   | _ -> failwith ("bad obs token " ^ tok)
 
-let eval inp obs =
+let eval_fetcher inp obs =
   let groups = split_on ";" inp in
   let hl, mb, ops, optime = (match groups with
     | [h] :: r -> int_of_string h, 99, parse_ops r, Array.of_list (List.map op_time r)
@@ -221,5 +221,26 @@ let eval inp obs =
   { model_obs = (if late then "LATE" :: model_toks else model_toks);
     spec_ok = Some spec_impl; model_spec_ok = spec_model;
     nontrivial = !nontrivial; indeterminate = !indet; note = "" }
+
+(* worker-pool cases: W nWorkers cap ; E id ; Q ; D ; S ...   obs: e<id>:<ok>:<afterq>:<runs> ... late<b>
+   The pool is nondeterministic (select between ready cases), so the observation is not replayed; it is
+   judged by the executable check wk_check (model/Workers.v): at most one run per closure, no run for a
+   refused Enqueue, refusal only after close(quit), nothing after wg.Wait() returned. *)
+let eval_workers inp obs =
+  let parsed = List.filter_map (fun tok ->
+    if String.length tok > 1 && tok.[0] = 'e' then
+      (match String.split_on_char ':' (String.sub tok 1 (String.length tok - 1)) with
+       | [id; ok; aq; runs] -> Some (nn (int_of_string id), ok = "1", aq = "1", int_of_string runs)
+       | _ -> None)
+    else None) obs in
+  let late = List.mem "late1" obs in
+  let wellformed = List.exists (fun t -> t = "late0" || t = "late1") obs in
+  let runs = List.map (fun (id, _, _, r) -> (id, nat_of_int r)) parsed in
+  let enq = List.map (fun (id, ok, aq, _) -> (id, (ok, aq))) parsed in
+  let ok = wellformed && wk_check runs enq late in
+  { default_verdict with model_obs = obs; spec_ok = Some ok; model_spec_ok = true;
+    nontrivial = List.exists (fun (_, _, aq, _) -> aq) parsed }
+
+let eval inp obs = match inp with "W" :: _ -> eval_workers inp obs | _ -> eval_fetcher inp obs
 
 let () = run eval
